@@ -263,7 +263,15 @@ class Guest(object):
                    csts.EXCEPT_SYSCALL):
             j.add_exception_handler(fl, on_other(fl))
 
+        mips_py = backend == "python" and target.startswith("mips")
+        if mips_py:
+            from miasm.expression.expression import ExprId, ExprInt
+            self._bds = (ExprId("branch_dst_set", 32), ExprInt(0, 32))
+
         def exec_cb(jitter):
+            if mips_py:
+                # what the C back ends do implicitly (the marker is a local of each block)
+                jitter.jit.symbexec.symbols[self._bds[0]] = self._bds[1]
             self.steps += 1
             self.pcs.add(jitter.pc)
             if self.steps > self.max_steps:
